@@ -161,6 +161,16 @@ type udpRun struct {
 	which    string
 	// empty-payload datagrams by their (unique) destination port
 	emptyByPort map[int]*uSpec
+	// stopAt: virtual time at which the listener was closed with associations
+	// still alive (-1: closed after everything expired)
+	stopAt time.Duration
+	// lateDst: (target socket, association source address) pairs seen by targets
+	lateDst []lateDst
+}
+
+type lateDst struct {
+	sock *simnet.UDPConn
+	to   *net.UDPAddr
 }
 
 // f records a violation only when the scenario decides the property the oracle
@@ -246,7 +256,7 @@ func runUDP(rc *RunCtx, which string) {
 		simrt.Probe("two_listeners_one_handler")
 	}
 	srv := startUDPServer(rc, w, udpServerOpts{Keys: cfg, Timeout: 5 * time.Minute, Metrics: m, Listeners: nL})
-	r := &udpRun{which: which, rc: rc, w: w, srv: srv, keys: cfg, tspecs: map[string]*tSpec{}, specs: map[string]*uSpec{}, emptyByPort: map[int]*uSpec{}}
+	r := &udpRun{which: which, rc: rc, w: w, srv: srv, keys: cfg, tspecs: map[string]*tSpec{}, specs: map[string]*uSpec{}, emptyByPort: map[int]*uSpec{}, stopAt: -1}
 	// targets
 	nT := 1 + G.Draw(3)
 	var targets []*simnet.UDPConn
@@ -288,6 +298,7 @@ func runUDP(rc *RunCtx, which string) {
 				if err != nil {
 					return
 				}
+				r.lateDst = append(r.lateDst, lateDst{ts, from})
 				for k := 0; k < nrep; k++ {
 					nReply++
 					sz := []int{0, 1, 30, 500, 1400}[G.Draw(5)]
@@ -437,17 +448,44 @@ func runUDP(rc *RunCtx, which string) {
 	if G.Draw(2) == 0 {
 		// settle without letting the associations expire (NAT timeout 5 min, all
 		// delays are below a second): the listener is then shut down with live
-		// associations
+		// associations, while a few late replies from the targets are in flight
 		simrt.Sleep(10 * time.Second)
 		simrt.Probe("shutdown_with_live_associations")
+		r.stopAt = simrt.Elapsed()
+		nLate := 0
+		if len(r.lateDst) > 0 {
+			nLate = G.Draw(4)
+		}
+		for k := 0; k < nLate; k++ {
+			k := k
+			d := r.lateDst[G.Draw(len(r.lateDst))]
+			j := jitter(G)
+			sz := []int{0, 30, 500}[G.Draw(3)]
+			simrt.GoNamed(fmt.Sprintf("udp-late-reply-%d", k), func() {
+				j()
+				id := fmt.Sprintf("tlate-%d", k)
+				p := append([]byte(id+"|"), payload(G, sz)...)
+				d.sock.WriteToUDP(p, d.to)
+				if rec := d.sock.LastSent; rec != nil {
+					r.tspecs[id] = &tSpec{id: id, from: rec.From, to: d.to, payload: p, rec: rec}
+				}
+				simrt.Probe("reply_in_flight_at_shutdown")
+			})
+		}
+		jitter(G)()
+		rc.Phase = "stop"
+		srv.Stop()
+		simrt.Quiesce()
+		rc.Phase = "check"
+		r.check(which)
 	} else {
 		simrt.Quiesce()
+		rc.Phase = "check"
+		r.check(which)
+		rc.Phase = "stop"
+		srv.Stop()
+		simrt.Quiesce()
 	}
-	rc.Phase = "check"
-	r.check(which)
-	rc.Phase = "stop"
-	srv.Stop()
-	simrt.Quiesce()
 	if which == "c16" {
 		r.checkStopped()
 	}
@@ -670,12 +708,17 @@ func (r *udpRun) check(which string) {
 		return best
 	}
 	expReply := map[string]int{} // "tid>clientaddr" -> count
+	optReply := map[string]int{} // read at or after the listener's shutdown: delivery optional
 	for _, sk := range outSocks {
 		c := ownerClient(sk)
-		for _, rec := range sk.ReadLog {
+		for i, rec := range sk.ReadLog {
 			id := idOf(rec.Payload)
 			if c != nil {
-				expReply[id+">"+c.addr.String()]++
+				if r.stopAt >= 0 && sk.ReadAts[i] >= r.stopAt {
+					optReply[id+">"+c.addr.String()]++
+				} else {
+					expReply[id+">"+c.addr.String()]++
+				}
 			}
 		}
 	}
@@ -755,7 +798,7 @@ func (r *udpRun) check(which string) {
 			}
 		}
 		for k, a := range actReply {
-			if a > expReply[k] {
+			if a > expReply[k]+optReply[k] {
 				r.f("c04", "c04:reply-misdelivered", "datagram %s was relayed %d times, expected %d (delivered to a client that does not own the source address?)", k, a, expReply[k])
 			}
 		}
